@@ -167,6 +167,7 @@ func (fr *FuncRun) sendOn(f *Frame, st *State, ch, v Val, chv ssa.Value, pos tok
 	cur := fr.heapCur(st, sent)
 	fr.heapSet(st, sent, sto(cur, ch.T, "(+ "+sel(cur, ch.T)+" 1)"))
 	// thread-local send counter for send-once obligations
+	fr.touchCounter("sends")
 	key := cellKey{0, "sends"}
 	old, ok := st.cells[key]
 	if !ok {
@@ -241,13 +242,13 @@ func (fr *FuncRun) execSelect(f *Frame, st *State, x *ssa.Select) {
 
 // syncPoint: shared locations written by spawned threads may have changed (DRF assumption).
 func (fr *FuncRun) syncPoint(f *Frame, st *State) {
-	if fr.spawned == nil {
+	if st.spawned == nil {
 		return
 	}
-	for h := range fr.spawned.heaps {
+	for h := range st.spawned.heaps {
 		st.heaps[h] = fr.freshHeap(h)
 	}
-	for c := range fr.spawned.cells {
+	for c := range st.spawned.cells {
 		if old, ok := st.cells[c]; ok {
 			nv := Val{T: fr.fresh(old.S, "shared"), S: old.S}
 			st.cells[c] = nv
